@@ -5,7 +5,7 @@
    Quantification over parameter values: every phase ring R and atoms A (u = e^{i pi/16}, z_j = e^{i theta_j/4}). *)
 From Coq Require Import Lia.
 From QV Require Import Model.QasmImport Spec.QasmSem Found.Circ Gen.Gates Gen.Qasm.
-From QV Require Import Proofs.QasmShortcut Proofs.QasmIf Proofs.QasmSubst Proofs.QasmRegs Proofs.QasmRejects.
+From QV Require Import Proofs.QasmShortcut Proofs.QasmIf Proofs.QasmSubst Proofs.QasmRegs Proofs.QasmRejects Proofs.QasmCustom.
 Local Open Scope string_scope.
 Local Open Scope nat_scope.
 Local Open Scope list_scope.
@@ -61,6 +61,16 @@ Theorem import_regs_ok : forall L qs, (forall r off n, sassoc r L = Some (off, n
   regs_gate true L qs = match omap (resolve L) qs with Some rs => broadcast rs | None => None end.
 Proof. exact regs_ok. Qed.
 Print Assumptions import_regs_ok.
+
+(* Layer C, user-defined gates (fixed code: whole-identifier substitution).  The temporary circuit the importer builds for a
+   user gate - recursive expansion, parameters evaluated and substituted at every level, qubit names replaced by indices -
+   is the standard's macro expansion of the gate to the library level (environment semantics, Spec/Qasm.v expand), each
+   leaf translated by the importer's table; for every program, every nesting depth, every parameter values. *)
+Theorem custom_gate_ok : forall (A : VAlg) p Sg Gi Gs g vals regs gs ls,
+  init_gates sig0 [] (p_gates p) = Some (Sg, Gi) -> gdefs (p_gates p) [] = Some Gs ->
+  custom A Gi g vals regs = Some gs -> expand A sig0 Gs g vals regs = Some ls -> flat_pre A ls = Some gs.
+Proof. exact custom_prog_sound. Qed.
+Print Assumptions custom_gate_ok.
 
 (* Layer D, import_rejects.  Whatever else a program contains, ONE statement of a malformation class named by the property
    makes the importer reject it.  (bad_arg = undeclared register or index out of range; app_of o = the gate application
@@ -122,8 +132,8 @@ Print Assumptions import_rejects_bad_body.
 (* import_sound, PARTIAL.  Full statement: for every well-formed program p (wf lib_sigs p = true), import_prog p = Some c and
    c has the branch semantics of spec_prog p up to one phase per measurement record.  Proved: its ingredients for all inputs -
    shortcut_ok (every library-level gate), import_regs_ok (arguments and broadcast), import_if_ok / import_if_never
-   (classical conditions), the rejection theorems above.  NOT proved: the composition over whole programs (user-gate
-   expansion by substitution against the standard's environment semantics, measurement mapping, phase bookkeeping);
+   (classical conditions), custom_gate_ok (user gates, soundness direction), the rejection theorems.  NOT proved: totality
+   (a well-formed program is never refused) and the composition over whole programs (measurement mapping, phases);
    this is tied by the correspondence check (model = real code, exactly) and the independent evaluator (real code = standard). *)
 
 (* non-vacuity *)
@@ -132,6 +142,12 @@ Example rejects_instance :
   bad_arg (layout 0 (p_qregs p)) (AIdx "q" 5) /\ import_prog TermAlg p = None /\
   import_prog TermAlg (mkProg [("q", 2)] [] [] [OApp "cx" [] [AIdx "q" 0; AIdx "q" 1]]) <> None.
 Proof. split; [vm_compute; lia|]. split; [vm_compute; reflexivity| vm_compute; discriminate]. Qed.
+Example custom_gate_ok_instance :
+  let p := mkProg [("q", 2)] [] [GDef "g" (mkGdef ["t"] ["a"; "b"] [BCall "rx" [EDiv (EId "t") (ENum 2)] ["a"]; BBarrier ["a"]; BCall "cx" [] ["b"; "a"]]);
+                                 GDef "h2" (mkGdef ["x"] ["a"; "b"] [BCall "g" [EMul (EId "x") EPi] ["b"; "a"]; BCall "t" [] ["a"]])] [] in
+  exists Sg Gi Gs gs ls, init_gates sig0 [] (p_gates p) = Some (Sg, Gi) /\ gdefs (p_gates p) [] = Some Gs /\
+    custom TermAlg Gi "h2" [TNum 3] [0; 1] = Some gs /\ expand TermAlg sig0 Gs "h2" [TNum 3] [0; 1] = Some ls /\ length gs = 3 /\ length ls = 3.
+Proof. do 5 eexists. repeat split; vm_compute; reflexivity. Qed.
 Example regs_ok_instance : regs_gate true [("q", (0, 2)); ("r", (2, 2))] [AReg "q"; AIdx "r" 1] = Some [[0; 3]; [1; 3]].
 Proof. vm_compute. reflexivity. Qed.
 Example shortcut_ok_ccx : exists c1 c2, imp_sym "ccx" = Some c1 /\ std_with_phase "ccx" = Some c2 /\ length c1 = 1 /\ length c2 = 16
